@@ -259,8 +259,15 @@ pub fn run(a: &Args) -> Report {
     let thorough = a.thorough();
     let cfg = a.run_cfg(if thorough { 5_000_000 } else { 200_000 });
     let ops_max = a.u("ops", 200) as usize;
+    let prop = a.prop();
     run_parallel(&cfg, |i, rep| {
         let mut rng = Rng::derive(seed ^ 0x12, i);
+        if prop == "C01" {
+            rep.count("builder_histories", 1);
+            let h = builder_case(&mut rng, rep, "C01", i);
+            rep.eval(Some(h));
+            return;
+        }
         let h = match i % 4 {
             0 => {
                 let alphabet = rng.range(2, 8);
